@@ -204,6 +204,16 @@ def _run_one(case, ctx):
     common.domain(m, recipe=case["recipe"])
     if case["via"] == "negate":
         ctx.call("negate", m.negate)
+        import zlib
+        h_ = zlib.crc32(repr(case["recipe"]).encode())
+        if h_ % 2 == 0:
+            # the same object negated again after a rule below its root was replaced in place by another one with the same id (the edited object is
+            # itself a validated model): the second negation is the negation of the object as it is now
+            from . import c01
+            what = c01.redefine(m, random.Random(h_))
+            if what is not None and adapters.validated(m) is not None:
+                ctx.count("count:negated-edited-in-place-negated-again")
+                ctx.call("negate", m.negate)
     elif case["via"] == "Not":
         ctx.call("Not", pg.Not, m)
     else:
